@@ -184,6 +184,9 @@ class IfWriteHandler(AbstractWriteHandler):
         if op.op_code.name == "BranchSum":
             return f'BranchSum({", ".join([str(x) for x in op.params])})'
         if op.op_code.name == "BranchValue":
+            if op.params[1] == SsbOperator.EQ.value:
+                # (`$VAR == 5` is the spelling of Branch)
+                return f'BranchValue({", ".join([str(x) for x in op.params])})'
             return f"{op.params[0]} {SsbOperator(op.params[1]).notation} {op.params[2]}"  # type: ignore
         if op.op_code.name == "BranchVariable":
             return f"{op.params[0]} {SsbOperator(op.params[1]).notation} value({op.params[2]})"  # type: ignore
